@@ -437,54 +437,116 @@ fn c15_header_roundtrip() {
     }
 }
 
-// @harness c14_ext_walk
-// @props C14
-// @tier quick
-// @cost 120
-// @timeout 1200
+macro_rules! ext_walk {
+    ($name:ident, $len:expr) => {
+        #[kani::proof]
+        #[kani::unwind(18)]
+        #[kani::stub(alloc::fmt::format, fmt_stub)]
+        fn $name() {
+            let mut buf = [0u8; 136];
+            let f = Fields {
+                version: 3, cluster_bits: 16, size: 1 << 30, crypt_method: 0, l1_size: 2, l1_table_offset: 0x30000,
+                refcount_table_offset: 0x10000, refcount_table_clusters: 1, nb_snapshots: 0, snapshots_offset: 0,
+                incompatible: 0, compatible: 0, autoclear: 0, refcount_order: 4, header_length: HLEN as u32,
+                compression_type: 0,
+            };
+            emit(&mut buf, &f);
+            // concrete unknown type: a symbolic one would make the string / hash-map arms of the
+            // extension parser reachable for the symbolic executor (assume does not prune them)
+            let ty: u32 = 0x1234_5678;
+            let len: u32 = $len;
+            put32(&mut buf, 112, ty);
+            put32(&mut buf, 116, len);
+            // arbitrary extension data (what lies inside the buffer)
+            let data: [u8; 16] = kani::any();
+            let mut k = 0;
+            while k < 16 {
+                if (k as u32) < len {
+                    buf[120 + k] = data[k];
+                }
+                k += 1;
+            }
+            let r = Qcow2Header::from_buf(&buf);
+            // data occupies [120, 120+len); the next extension header needs 8 more bytes after padding
+            let next = 120 + ((len as u64 + 7) & !7);
+            let fits = 120 + (len as u64) <= 136 && next + 8 <= 136;
+            match &r {
+                Ok(h) => {
+                    assert!(fits);
+                    assert!(h.extensions.len() == 1);
+                    if let Qcow2HeaderExtension::Unknown { extension_type, data } = &h.extensions[0] {
+                        assert!(*extension_type == ty && data.len() == len as usize);
+                    } else {
+                        assert!(false);
+                    }
+                }
+                Err(_) => assert!(!fits),
+            }
+            kani::cover!(r.is_ok() == fits);
+            core::mem::forget(r);
+        }
+    };
+}
+
+// @harness c14_ext_walk_8
+// @props C14 C15
+// @tier thorough
+// @cost 60
+// @timeout 900
 // @cbmc --max-field-sensitivity-array-size 256
-// @desc the header-extension walk of from_buf on a valid 64 KiB-cluster header followed by one extension of UNKNOWN type whose length field is arbitrary, in a buffer (136 bytes) much shorter than the cluster: never panics; an extension whose data would run past the end of the buffer is refused with Err; one that fits is kept with exactly its length, and the walk terminates at the END marker
-// @bounds buffer 136 bytes; extension type: any u32 except the two known codes and END; extension length field: any u32; bytes after the extension header are zero (so the walk ends at an END marker wherever it resumes)
+// @desc the header-extension walk of from_buf on a valid 64 KiB-cluster header followed by one extension of UNKNOWN type with 8 data bytes, in a 136-byte buffer (much shorter than the cluster): accepted, kept with exactly its type and length, the walk ends at the END marker behind it
+// @bounds buffer 136 bytes; extension type 0x12345678 (concrete, unknown); data arbitrary; length 8 (concrete)
 // @funcs Qcow2Header::from_buf (extension walk) Qcow2HeaderExtension::from (Unknown / End arms)
 // @stub alloc::fmt::format -> String::new()
-#[kani::proof]
-#[kani::unwind(5)]
-#[kani::stub(alloc::fmt::format, fmt_stub)]
-fn c14_ext_walk() {
-    let mut buf = [0u8; 136];
-    let f = Fields {
-        version: 3, cluster_bits: 16, size: 1 << 30, crypt_method: 0, l1_size: 2, l1_table_offset: 0x30000,
-        refcount_table_offset: 0x10000, refcount_table_clusters: 1, nb_snapshots: 0, snapshots_offset: 0,
-        incompatible: 0, compatible: 0, autoclear: 0, refcount_order: 4, header_length: HLEN as u32,
-        compression_type: 0,
-    };
-    emit(&mut buf, &f);
-    let ty: u32 = kani::any();
-    kani::assume(ty != 0 && ty != 0xe2792aca && ty != 0x6803f857);
-    let len: u32 = kani::any();
-    put32(&mut buf, 112, ty);
-    put32(&mut buf, 116, len);
-    let r = Qcow2Header::from_buf(&buf);
-    // data occupies [120, 120+len); the next extension header needs 8 more bytes after padding
-    let fits = (len as u64) <= 16;
-    let next = 120 + ((len as u64 + 7) & !7);
-    match &r {
-        Ok(h) => {
-            assert!(fits && next + 8 <= 136);
-            assert!(h.extensions.len() == 1);
-            if let Qcow2HeaderExtension::Unknown { extension_type, data } = &h.extensions[0] {
-                assert!(*extension_type == ty && data.len() == len as usize);
-            } else {
-                assert!(false);
-            }
-        }
-        Err(_) => assert!(!fits || next + 8 > 136),
-    }
-    kani::cover!(r.is_ok() && len == 8);
-    kani::cover!(r.is_err() && len == 17);
-    kani::cover!(r.is_err() && len == u32::MAX);
-    core::mem::forget(r);
-}
+ext_walk!(c14_ext_walk_8, 8);
+
+// @harness c14_ext_walk_16
+// @props C14
+// @tier thorough
+// @cost 60
+// @timeout 900
+// @cbmc --max-field-sensitivity-array-size 256
+// @desc same walk, extension data reaching exactly the end of the buffer (no room for the next extension header): refused with Err, no panic
+// @bounds as c14_ext_walk_8 with length 16
+// @funcs Qcow2Header::from_buf (extension walk)
+// @stub alloc::fmt::format -> String::new()
+ext_walk!(c14_ext_walk_16, 16);
+
+// @harness c14_ext_walk_17
+// @props C14
+// @tier quick
+// @cost 60
+// @timeout 900
+// @cbmc --max-field-sensitivity-array-size 256
+// @desc same walk, extension data running one byte past the end of the buffer (but far inside the first cluster): refused with Err, no panic
+// @bounds as c14_ext_walk_8 with length 17
+// @funcs Qcow2Header::from_buf (extension walk)
+// @stub alloc::fmt::format -> String::new()
+ext_walk!(c14_ext_walk_17, 17);
+
+// @harness c14_ext_walk_4096
+// @props C14
+// @tier quick
+// @cost 60
+// @timeout 900
+// @cbmc --max-field-sensitivity-array-size 256
+// @desc same walk, extension length 4096 (past the buffer, inside the cluster): refused with Err, no panic
+// @bounds as c14_ext_walk_8 with length 4096
+// @funcs Qcow2Header::from_buf (extension walk)
+// @stub alloc::fmt::format -> String::new()
+ext_walk!(c14_ext_walk_4096, 4096);
+
+// @harness c14_ext_walk_max
+// @props C14
+// @tier quick
+// @cost 60
+// @timeout 900
+// @cbmc --max-field-sensitivity-array-size 256
+// @desc same walk, extension length 0xffffffff (past the first cluster): refused with Err, no overflow
+// @bounds as c14_ext_walk_8 with length u32::MAX
+// @funcs Qcow2Header::from_buf (extension walk)
+// @stub alloc::fmt::format -> String::new()
+ext_walk!(c14_ext_walk_max, u32::MAX);
 
 // @harness c09_header_v2
 // @props C09 C14
